@@ -162,3 +162,96 @@ package client
 //@   requires e.dataStore != nil
 //@   modifies heap(alloc), ghost st.seq, ghost dagst.creates, ghost dagst.create_name
 //@   ensures [C18 create_goes_through_the_store] dagst.creates == old(dagst.creates) + 1 && dagst.create_name == name
+
+// ---------------------------------------------------------------------------------------------
+// Interface contracts used by the web API handlers (C20).
+//@ ghost obs.gs_calls int
+//@ ghost obs.gs *DAGStatus
+//@ ghost obs.gs_err error
+//@ ghost obs.gs_id string
+//@ ghost obs.byreq_calls int
+//@ ghost obs.byreq *model.Status
+//@ ghost obs.byreq_id string
+//@ ghost obs.byreq_dag *dag.DAG
+//@ ghost obs.byreq_err error
+//@ ghost cli.update_dag *dag.DAG
+//@ ghost cli.retry_dag *dag.DAG
+
+//@ fn (Client).GetStatus(c, dagLocation) (st, err)
+//@   props C20
+//@   trusted
+//@   modifies heap(alloc), ghost obs.gs_calls, ghost obs.gs, ghost obs.gs_err, ghost obs.gs_id
+//@   ensures obs.gs_calls == old(obs.gs_calls) + 1 && obs.gs == st && obs.gs_err == err && obs.gs_id == dagLocation
+//@   ensures st != nil && st.Status != nil && st.DAG != nil
+//@ fn (Client).GetStatusByRequestID(c, workflow, requestID) (st, err)
+//@   props C20
+//@   trusted
+//@   modifies heap(alloc), ghost obs.byreq_calls, ghost obs.byreq, ghost obs.byreq_id, ghost obs.byreq_dag, ghost obs.byreq_err
+//@   ensures obs.byreq_calls == old(obs.byreq_calls) + 1 && obs.byreq == st && obs.byreq_id == requestID && obs.byreq_dag == workflow && obs.byreq_err == err
+//@   ensures err == nil ==> (st != nil && (forall i int :: 0 <= i && i < len(st.Nodes) ==> st.Nodes[i] != nil))
+//@ fn (Client).UpdateStatus(c, workflow, status) (err)
+//@   props C20
+//@   trusted
+//@   modifies ghost cli.update, ghost cli.update_status, ghost cli.update_dag
+//@   ensures cli.update == old(cli.update) + 1 && cli.update_status == status && cli.update_dag == workflow
+//@ fn (Client).Retry(c, workflow, requestID) (err)
+//@   props C20
+//@   trusted
+//@   modifies ghost cli.retry, ghost cli.retry_reqid, ghost cli.retry_dag
+//@   ensures cli.retry == old(cli.retry) + 1 && cli.retry_reqid == requestID && cli.retry_dag == workflow
+//@ fn (Client).ToggleSuspend(c, id, suspend) (err)
+//@   props C20
+//@   trusted
+//@   modifies ghost cli.suspend, ghost cli.suspend_id, ghost cli.suspend_val
+//@   ensures cli.suspend == old(cli.suspend) + 1 && cli.suspend_id == id && cli.suspend_val == suspend
+//@ fn (Client).UpdateDAG(c, id, spec) (err)
+//@   props C20
+//@   trusted
+//@   modifies ghost cli.save, ghost cli.save_id, ghost cli.save_spec
+//@   ensures cli.save == old(cli.save) + 1 && cli.save_id == id && cli.save_spec == spec
+//@ fn (Client).Rename(c, oldID, newID) (err)
+//@   props C20
+//@   trusted
+//@   modifies ghost cli.rename, ghost cli.rename_old, ghost cli.rename_new
+//@   ensures cli.rename == old(cli.rename) + 1 && cli.rename_old == oldID && cli.rename_new == newID
+
+// Implementation side (C20).
+//@ fn (*client).UpdateStatus(e, workflow, status) (err)
+//@   props C20
+//@   requires e.dataStore != nil
+//@   modifies heap(alloc), ghost eff.hist, ghost histst.updates, ghost histst.update_loc, ghost histst.update_id, ghost histst.update_status,
+//@            ghost sockq.*, ghost obs.json*
+//@   ensures [C20 live_run_is_not_edited] sockq.err == nil && obs.json_st != nil && obs.json_st.RequestID == status.RequestID &&
+//@        obs.json_st.Status == scheduler.StatusRunning ==> (err != nil && histst.updates == old(histst.updates))
+//@   ensures [C20 edit_is_written_to_the_addressed_run] histst.updates != old(histst.updates) ==>
+//@        (histst.updates == old(histst.updates) + 1 && histst.update_loc == workflow.Location && histst.update_id == status.RequestID && histst.update_status == status)
+//@   ensures [C20 unreachable_socket_is_not_taken_for_idle_on_timeout] sockq.err != nil && err_is(sockq.err, sock.ErrTimeout) ==> (err != nil && histst.updates == old(histst.updates))
+
+//@ fn (*client).GetStatusByRequestID(e, workflow, requestID) (st, err)
+//@   props C20 C08
+//@   requires e.dataStore != nil
+//@   modifies heap(alloc), heap(model.Status.Status), heap(model.Status.StatusText), ghost obs.find*, ghost sockq.*, ghost obs.json*
+//@   ensures [C20 run_is_looked_up_by_its_request_id] obs.find_calls == old(obs.find_calls) + 1 && obs.find_loc == workflow.Location && obs.find_id == requestID
+//@   ensures [C20 lookup_failure_is_reported] obs.find_err != nil ==> (err != nil && st == nil)
+//@   ensures [C20 found_run_is_returned] obs.find_err == nil ==> (st == obs.find_sf.Status && err == nil)
+//@   ensures [C08 stale_running_record_of_another_run_is_relabelled_failed] obs.find_err == nil &&
+//@        sockq.err == nil && obs.json_st != nil && obs.json_err == nil && obs.json_st.RequestID != requestID ==> st.Status != scheduler.StatusRunning
+
+// Start: the command line handed to the new process carries the parameters unchanged inside one pair of quotes.
+// escapeArg (rune loop over a strings.Builder) is a trusted contract audited by a bounded stand-in that executes it.
+//@ ufunc escape_arg(s string) string
+//@ fn escapeArg(input) (r)
+//@   props C20 C11
+//@   trusted
+//@   noeffect
+//@   ensures r == escape_arg(input)
+//@   ensures [C20 parameters_without_line_breaks_are_not_altered] !contains(input, "\r") && !contains(input, "\n") ==> r == input
+//@ ghost obs.cmd_name string
+//@ ghost obs.cmd_args []string
+//@ fn (*client).Start(e, workflow, opts) (err)
+//@   props C20 C11
+//@   modifies *
+//@   assert before os/exec.Command [C20 start_command_line] arg0 == e.executable && len(arg1) >= 2 && arg1[0] == "start" && arg1[len(arg1) - 1] == workflow.Location &&
+//@        (opts.Params != "" ==> (len(arg1) >= 4 && arg1[1] == "-p" && arg1[2] == "\"" + escape_arg(opts.Params) + "\"")) &&
+//@        (opts.Params == "" ==> len(arg1) == ite(opts.Quiet, 3, 2))
+//@   expect calls os/exec.Command >= 1
